@@ -1,4 +1,5 @@
 #include "common.h"
+#include <xmmintrin.h>
 
 #include <fcntl.h>
 #include <pthread.h>
@@ -272,6 +273,8 @@ static uint8_t* arena_take_packed(size_t n, size_t al) {
   pthread_mutex_unlock(&arena_mu);
   return r;
 }
+static unsigned case_csr;
+static unsigned short case_cw;
 int case_begin(const char* key, const char* fmt, ...) {
   if (in_case) harness_fail("case_begin inside a case (%s)", cur_key);
   cur_idx++;
@@ -298,6 +301,8 @@ int case_begin(const char* key, const char* fmt, ...) {
   // 1/16 of the cases each: adjacent ascending, adjacent descending, page-end, page-start, far apart
   g_case_place = g_case_aligned ? 0 : (((h >> 11) & 15) < 8 ? 1 + (int)((h >> 11) & 15) : 0);
   rng_seed(&cur_rng, G.seed ^ hash_bytes(G.prop, strlen(G.prop), 3), h);
+  case_csr = _mm_getcsr() & ~0x3Fu;
+  __asm__ volatile("fnstcw %0" : "=m"(case_cw));
   cur_note[0] = 0;
   cur_viols = 0;
   in_case = 1;
@@ -315,6 +320,18 @@ void sample(const char* fmt, ...) {
 
 void case_end(int nontrivial) {
   if (!in_case) harness_fail("case_end outside a case");
+  {
+    // whatever the case called in this thread - constructors and destructors included - must hand the floating-point
+    // environment back as it found it (rounding mode, flush-to-zero / denormals-are-zero, exception masks, x87 precision)
+    unsigned short cw;
+    __asm__ volatile("fnstcw %0" : "=m"(cw));
+    const unsigned csr = _mm_getcsr() & ~0x3Fu;
+    if (csr != case_csr || cw != case_cw) {
+      viol("fpenv", "floating-point environment of the calling thread changed during the case: MXCSR %#x -> %#x, x87 CW %#x -> %#x", case_csr, csr, case_cw, cw);
+      _mm_setcsr(case_csr | (_mm_getcsr() & 0x3Fu));
+      __asm__ volatile("fldcw %0" : : "m"(case_cw));
+    }
+  }
   n_eval++;
   if (g_case_aligned) cnt("cases_with_every_buffer_64B_aligned", 1);
   {
@@ -633,7 +650,11 @@ void gb_free(gbuf_t* g) {
 void fill_pattern(uint8_t* p, size_t n, int pattern, uint64_t seed) {
   switch (pattern & 3) {
     case 0:
+      // all-zero bytes, or (odd seeds) words 0x8000000000000000: -0.0 as a double, INT64_MIN as an integer - "zero" to a
+      // comparison, not to memset; code that skips a store because the destination already "equals" the value keeps it
       memset(p, 0, n);
+      if (seed & 1)
+        for (size_t i = 7; i < n; i += 8) p[i] = 0x80;
       break;
     case 1:
       memset(p, 0xFF, n);
